@@ -54,7 +54,7 @@ def shapes(level):
     add('FIR', rng(1,8) + [31] if big else [1,2,3])
     add('REMB', [0,1,2,3,4,255] if big else [0,1,2,3], rng(1,63) if big else [1,2,17,46,62,63], [17])
     add('REMB', [1], [0], rng(0,17) if big else [0,1,9,17])
-    add('CCFB', rng(0,3) if big else [0,1,2], rng(0,10) if big else rng(0,6))
+    add('CCFB', [0,1,2], rng(0,10) if big else rng(0,6))
     add('TWCC', [0,1,2,3,4,5,6,7,8])
     add('RAW', [4,8,12,16,20,40] if big else [4,8,12])
     for k in range(1, 10): add('XR', [k])
@@ -72,7 +72,7 @@ def codec(h, level):
         d = dict(c); d['h'] = h; out.append(d)
     return out
 CODEC_B = 'every packet type with all field values, texts and payload bytes symbolic, for the shapes: SR and RR reports {0..3,11,31} x extension octets {0,4,8}; SDES chunks {0..3} x items per chunk {0..3} x text octets {0..5}; BYE sources {0..3} x reason octets {0..8}; APP data octets {0..12}; NACK pairs {1..4}; RRR; PLI; SLI entries {0..3}; FIR entries {1..3}; REMB SSRCs {0..3} x exponents {1,2,17,46,62,63} (normal mantissa, low bits symbolic) and exponent 0 with mantissa MSB at {0,1,9,17}; CCFB blocks {0,1,2} x metric blocks {0..6} with symbolic begin sequence; TWCC: 9 chunking skeletons (run-length, 1-bit and 2-bit vectors, exact fit, vector overshoot) with symbolic header fields and delta values; XR: the empty report, every single block of the 7 RFC 3611 kinds and 2 unknown-block shapes, and all 81 ordered two-block sequences; Raw {4,8,12} octets'
-CODEC_BT = 'every packet type with all field values, texts and payload bytes symbolic, for the shapes: SR and RR reports {0..31} x extension octets {0,4,8,12}; SDES chunks {0..4} x items {0..4} x text octets {0..9,255}, and {8,31} chunks x {1,2} items x {1,2} octets; BYE sources {0..31} x reason octets {0..12,255}; APP data octets {0..40}; NACK pairs {1..12,253}; RRR; PLI; SLI entries {0..8}; FIR entries {1..8,31}; REMB SSRCs {0..4,255} x every exponent 1..63 (normal mantissa) and exponent 0 with mantissa MSB at every position 0..17; CCFB blocks {0..3} x metric blocks {0..10}; TWCC: 9 chunking skeletons; XR: empty, 9 single blocks, all 81 ordered pairs and 225 three-block sequences; Raw {4,8,12,16,20,40} octets'
+CODEC_BT = 'every packet type with all field values, texts and payload bytes symbolic, for the shapes: SR and RR reports {0..31} x extension octets {0,4,8,12}; SDES chunks {0..4} x items {0..4} x text octets {0..9,255}, and {8,31} chunks x {1,2} items x {1,2} octets; BYE sources {0..31} x reason octets {0..12,255}; APP data octets {0..40}; NACK pairs {1..12,253}; RRR; PLI; SLI entries {0..8}; FIR entries {1..8,31}; REMB SSRCs {0..4,255} x every exponent 1..63 (normal mantissa) and exponent 0 with mantissa MSB at every position 0..17; CCFB blocks {0,1,2} x metric blocks {0..10} (3 blocks did not finish); TWCC: 9 chunking skeletons; XR: empty, 9 single blocks, all 81 ordered pairs and 225 three-block sequences; Raw {4,8,12,16,20,40} octets'
 def c05extra():
     # length-focused shapes: every residue mod 4 of the variable-length parts
     return [{"h":"VpC05","x":[[K['RR']],[0,1],rng(1,9)]},{"h":"VpC05","x":[[K['SR']],[0,1],rng(1,9)]},
@@ -95,6 +95,11 @@ foreign = []
 for T in range(1,15):
     for U in range(1,16):
         if T != U: foreign.append([T] + minimal[U])
+# the emptiest well-formed packet of the kinds that have one (header-only or header+SSRC frames)
+empty = {1:[1,0,0],2:[2,0,0],3:[3,0,0,0],4:[4,0,0],5:[5,0],11:[11,0],14:[14],15:[15,4]}
+for T in range(1,15):
+    for U in empty:
+        if T != U: foreign.append([T] + empty[U])
 def dispatch(lens):
     return [{"h":"VpC07_Dispatch","x":[lens,[0,200,201,203,204,206]]},
             {"h":"VpC07_Dispatch","x":[[l for l in lens if l <= 28],[207]]},
@@ -102,7 +107,7 @@ def dispatch(lens):
 R['C07'] = {
  "quick": dispatch([4,8,12,16,20,24]) + [{"h":"VpC07_Foreign","a":foreign},{"h":"VpC07_Own","a":[minimal[k] for k in range(1,16)]}],
  "thorough": dispatch([4,8,12,16,20,24,28,32]) + [{"h":"VpC07_Foreign","a":foreign},{"h":"VpC07_Own","a":[minimal[k] for k in range(1,16)]}],
- "bounds": "dispatch: one well-framed frame of 4..24 octets (4..20 for PT 202 and 205) with all 32 count/FMT values and all body bytes symbolic, one query per packet type class {not 200..207, 200, ..., 207}; own output: the Marshal output of a minimal symbolic value of each of the 15 kinds is dispatched back to its type; foreign rejection: all 14x14 ordered pairs of distinct decoder/packet types plus unknown-type raw packets, the foreign packet built from symbolic field values and encoded by the RFC reference encoder",
+ "bounds": "dispatch: one well-framed frame of 4..24 octets (4..20 for PT 202 and 205) with all 32 count/FMT values and all body bytes symbolic, one query per packet type class {not 200..207, 200, ..., 207}; own output: the Marshal output of a minimal symbolic value of each of the 15 kinds is dispatched back to its type; foreign rejection: all 14x14 ordered pairs of distinct decoder/packet types plus unknown-type raw packets, plus the emptiest well-formed packet of 8 kinds (header-only SDES and BYE, report-less SR and RR, data-less APP, entry-less SLI, block-less XR, 4-octet raw) against every decoder, the foreign packet built from symbolic field values and encoded by the RFC reference encoder",
  "bounds_thorough": "as quick with frames up to 32 octets (XR frames up to 28, SDES and 205 frames up to 20)",
  "require_reach": ["reach:end","reach:row-raw"], "opts": {"unwind": 100},
  "outside_claim": ["frames longer than the bound", "TWCC frames with packet status count above 8"],
@@ -246,9 +251,18 @@ def c18(level):
           {"h":"VpC18_Decode","x":[[l for l in L if l <= 16],[202,203,206],[-1]]},
           {"h":"VpC18_Decode","x":[[8,12],[207],[-1]]},
           {"h":"VpC18_Decode","x":[[12,16,20],[205],[1,5,11,15,0]]}]
+    # length-focused shapes of C05 (extensions/texts/data of every residue mod 4, odd XR lists)
+    for c in c05extra():
+        d = dict(c); d['h'] = 'VpC18_Ops'; q.append(d)
+    # read-only operations on packets decoded out of a larger receive buffer
+    q += [{"h":"VpC18_DecodedOps","x":[[4,8,12,16,20],[0,200,201,204],[-1]]},
+          {"h":"VpC18_DecodedOps","x":[[4,8,12,16],[202,203,206],[-1]]},
+          {"h":"VpC18_DecodedOps","x":[[8,12],[207],[-1]]},
+          {"h":"VpC18_DecodedOps","x":[[12,16,20],[205],[1,5,11,15,0]]},
+          {"h":"VpC18_DecodedOpsDirect","a":[[n,200] for n in range(28,36)] + [[n,201] for n in range(8,16)] + [[n,204] for n in range(12,20)]}]
     return q
 R['C18'] = {"quick": c18('quick'), "thorough": c18('thorough'),
- "bounds": "frame conditions for all field values of the codec shapes (" + CODEC_B + "): Marshal, MarshalSize, DestinationSSRC, String executed twice in interleaved order on a frozen value; decode frame conditions on one symbolic frame of 4..20 octets per packet-type class (4..16 for SDES/BYE/PSFB, 8..12 XR, 12..20 RTPFB), through rtcp.Unmarshal and CompoundPacket.Unmarshal",
+ "bounds": "frame conditions for all field values of the codec shapes (" + CODEC_B + ") and the length-focused shapes of C05: Marshal, MarshalSize, DestinationSSRC, String executed twice in interleaved order on a frozen value; the same operations on the packets decoded from a frame of 4..20 octets (4..16 SDES/BYE/PSFB, 8..12 XR) lying in a larger receive buffer, and on SR (28..35 octets), RR (8..15) and APP (12..19) decoded by their own decoders, must leave the receive buffer unchanged; decode frame conditions on one symbolic frame of 4..20 octets per packet-type class (4..16 for SDES/BYE/PSFB, 8..12 XR, 12..20 RTPFB), through rtcp.Unmarshal and CompoundPacket.Unmarshal",
  "require_reach": ["reach:end"], "opts": {"unwind": 2000, "fmtmethods": 1}, "opts_thorough": {"unwind": 8000},
  "assumptions": ["the schedule/history quantifier is discharged by reduction (DESIGN C18): the solver decides, for all inputs in the bound, that no operation stores into an object that existed before the call (other than the documented XRHeader fields), into its input buffer or into a package-level variable, and that repeated calls return equal results; freedom from data races and schedule independence then follow from the Go memory model by a pencil-and-paper non-interference argument, not by exploring interleavings", "synchronisation inside fmt/reflect (sync.Pool, type caches) is trusted"],
  "outside_claim": ["actual exploration of goroutine interleavings", "shapes and frame lengths beyond the bound"]}
